@@ -80,4 +80,7 @@ example : (downstreamHdrs exC exE exR "a@b".toList "T".toList).filter (fun h => 
     codes and literals the model was written against (`Oidc/Shapes.lean`) -/
 theorem shape_processAuthorizedRequest_ok : Oidc.Shapes.Shape_processAuthorizedRequest := by unfold Oidc.Shapes.Shape_processAuthorizedRequest; rfl
 
+/-! further obligations against the regenerated program text (`Oidc/Shapes.lean`): constructor wiring and URL builders -/
+theorem text_New_ok : Oidc.Shapes.Text_New := by unfold Oidc.Shapes.Text_New; rfl
+
 end Oidc.Props.C10
